@@ -407,6 +407,16 @@ class ConcDomain(Domain):
         mname = base.rsplit("::", 1)[-1]
         args = e["args"]
         site = ir.locstr(e)
+        # std::atomic<T> (call counters and the like): its operations are atomic by definition and its value is never an index or
+        # a bound in this code base; kept as an opaque value whose operations do nothing observable to the analyses
+        if k == "Construct" and (e.get("t") or "").replace("const ", "").startswith("std::atomic<"):
+            for a_ in args:
+                it.rvalue(a_, fr)
+            return Opaque("atomic")
+        if k in ("Call", "OpCall") and ("std::atomic" in callee or "std::__atomic" in callee):
+            for a_ in (args[1:] if k == "OpCall" else args):
+                it.rvalue(a_, fr)
+            return Opaque("atomic")
         if k == "OpCall":
             op = e["op"]
             if op == "[]":
